@@ -135,7 +135,10 @@ func (ex *Exec) siteCall(fr *Frame, instr ssa.CallInstruction, c *ssa.CallCommon
 			continue
 		}
 		if ord > 0 {
-			// only the ord-th call site of this callee in source order within its function
+			// only the ord-th call site of this callee in source order within the function under contract
+			if fr != ex.rootFrame {
+				continue
+			}
 			rank := 1
 			for _, b := range fr.fn.Blocks {
 				for _, other := range b.Instrs {
